@@ -460,7 +460,9 @@ impl Scheduler {
         }));
 
         // Add our condition variable to the list of wakers scheduled for the queue
-        queue.core.lock().unwrap().wake_blocked.push(Arc::downgrade(&wakeup));
+        // ('rescheduled' starts out true so we always try to claim the queue before we wait for the first time: it may already be pending with no thread to run it)
+        let blocked = Arc::new(BlockedSync { wakeup: Arc::clone(&wakeup), ready: Arc::clone(&ready), rescheduled: atomic::AtomicBool::new(true) });
+        queue.core.lock().unwrap().wake_blocked.push(Arc::downgrade(&blocked));
         
         // Unsafe job with unbounded lifetime is needed because stuff on the queue normally needs a static lifetime
         let need_reschedule = {
@@ -479,8 +481,11 @@ impl Scheduler {
             let mut ready   = ready_mutex.lock().expect("Background job ready lock");
             
             while !*ready {
-                // Use the condition variable to wait for the wakeup
-                ready = wakeup.wait(ready).expect("Background job cvar wait");
+                // Use the condition variable to wait for the wakeup (unless the queue was rescheduled since we last tried to claim it, when the notification has already been sent)
+                if !blocked.rescheduled.swap(false, atomic::Ordering::SeqCst) {
+                    ready = wakeup.wait(ready).expect("Background job cvar wait");
+                    blocked.rescheduled.store(false, atomic::Ordering::SeqCst);
+                }
 
                 // If we're woken up and the queue is idle, drain it until the result is available
                 if !*ready {
@@ -511,6 +516,7 @@ impl Scheduler {
         };
 
         // Clean up the wakers from the queue (should at least free our one)
+        mem::drop(blocked);
         mem::drop(wakeup);
         queue.core.lock().unwrap().wake_blocked.retain(|waker| waker.strong_count() > 0);
 
